@@ -183,6 +183,86 @@ def h_rate(rate: int, channels: int) -> int:
     return 1
 
 
+# ------------------------------------------------------------------ C01.image: whole images from the independent writer through the real export
+def _words(n, seed):
+    import struct
+    return b"".join(struct.pack("<h", ((i * 7 + seed * 1000) % 60000) - 30000) for i in range(n))
+
+
+def _riff_chunks(data):
+    import struct
+    if len(data) < 12 or data[:4] != b"RIFF" or data[8:12] != b"WAVE" or struct.unpack("<I", data[4:8])[0] != len(data) - 8:
+        raise ValueError("bad RIFF header")
+    pos, out = 12, {}
+    while pos < len(data):
+        size = struct.unpack("<I", data[pos + 4:pos + 8])[0]
+        out[data[pos:pos + 4]] = data[pos + 8:pos + 8 + size]
+        pos += 8 + size
+    return out
+
+
+def h_image(dirk: int, vtype: int, free: int, rev: int, sizek: int, mark: int, rate_i: int, parts: int, pair: int) -> int:
+    """
+    pre: 0 <= dirk <= 2 and 0 <= vtype <= 1 and 0 <= free <= 1 and 0 <= rev <= 1 and 0 <= sizek <= 2 and 0 <= mark <= 2
+    pre: 0 <= rate_i <= 2 and 1 <= parts <= 2 and 0 <= pair <= 2
+    post: _ == 1
+    """
+    CNT[0] += 1
+    from vf.util import conc, untraced
+    dirk, vtype, free, rev, sizek, mark = conc(dirk, 0, 2), conc(vtype, 0, 1), conc(free, 0, 1), conc(rev, 0, 1), conc(sizek, 0, 2), conc(mark, 0, 2)
+    rate_i, parts, pair = conc(rate_i, 0, 2), conc(parts, 1, 2), conc(pair, 0, 2)
+    with untraced():
+        import io
+        import struct
+        from vf import akaiw
+        from vf.props import c16
+        import smpl_extract.actions as actions
+        sf = akaiw.sample_file
+        rate = (0, 22050, 44100)[rate_i]
+        nb = (10, 4026, 8122)[sizek]                   # small / fills its sector exactly / fills two sectors exactly
+        wa, wb = _words(6000, 1), _words(nb, 2)
+        st, en = ((0, None), (7, nb - 3), (5, 5))[mark] if nb > 10 or mark != 1 else (2, 9)
+        files = [("AAA", 0x73, sf("AAA", wa, rate=rate), [1, 0] if rev else None),
+                 ("BBB", 0xf3, sf("BBB", wb, rate=rate, start=st, end=en), ([1, 0] if rev else None) if sizek == 2 else None)]
+        exp = {"A/VOL ONE/AAA.wav": (1, 44100 if rate == 0 else rate, wa),
+               "A/VOL ONE/BBB.wav": (1, 44100 if rate == 0 else rate, wb[2 * st:2 * (len(wb) // 2 if en is None else en)])}
+        if pair:
+            wl, wr = _words(300, 3), _words(300, 4)
+            pf = [("PAD  -L", 0x73, sf("PAD  -L", wl), None), ("PAD  -R", 0x73, sf("PAD  -R", wr), None)]
+            files = files[:1] + (pf if pair == 1 else pf[::-1]) + files[1:]
+            inter = b"".join(wl[2 * i:2 * i + 2] + wr[2 * i:2 * i + 2] for i in range(300))
+            exp["A/VOL ONE/PAD.wav"] = (2, 44100, inter)
+        kw = dict(dir_sectors=(1, 2, 2)[dirk], dir_linked=(dirk == 2), vol_type=(1, 3)[vtype], first_free=(3, 6)[free])
+        img = akaiw.partition([("VOL ONE", files, None)], size_sectors=24, **kw)
+        if parts == 2:
+            wc = _words(50, 5)
+            img += akaiw.partition([("V2", [("CCC", 0x73, sf("CCC", wc), None)], None), ("V3", [("CCC", 0xf3, sf("CCC", wc[:40]), None)], None)], size_sectors=16)
+            exp["B/V2/CCC.wav"] = (1, 44100, wc)
+            exp["B/V3/CCC.wav"] = (1, 44100, wc[:40])
+        try:
+            res = c16._do(actions.determine_image_type(io.BufferedReader(io.BytesIO(img))), ("export", None))
+        except Exception:
+            return 0
+        got = dict(res[1])
+        # exactly one WAV per sample file (one per left/right pair) at <partition>/<volume>/<name>.wav and nothing else
+        if sorted(got) != sorted("out/" + k for k in exp):
+            return 0
+        lines = [ln for ln in res[2].split("\n") if ln]
+        if sorted(lines) != sorted("Exported " + k for k in exp):
+            return 0
+        for k, (ch, rt, pcm) in exp.items():
+            try:
+                c = _riff_chunks(got["out/" + k])
+            except ValueError:
+                return 0
+            af, nch, sr, br, ba, bits = struct.unpack("<HHIIHH", c[b"fmt "])
+            if (af, nch, sr, bits, ba, br) != (1, ch, rt, 16, 2 * ch, rt * 2 * ch):
+                return 0
+            if c[b"data"] != pcm:
+                return 0
+    return 1
+
+
 RUNS = ["smpl_extract.akai.sample:AkaiSample.to_generalized", "smpl_extract.akai.sample:SampleAdapter._decode_element",
         "smpl_extract.generalized.wav:WavSampleAdapter._encode", "smpl_extract.generalized.wav:get_fmt_chunk_data",
         "smpl_extract.transcoder:make_transcoder", "smpl_extract.transcoder:PassthroughTranscoder.__next__",
@@ -198,7 +278,7 @@ META = {
         "sample rate fixed to 44100 in C01.stack (the rate path is C01.rate)",
     ],
     "trusted": ["CPython 3.12", "z3 5.1", "CrossHair 0.0.110", "construct 2.10 (Struct/Lazy/Computed execution)", "AbsFile/Spans stub"],
-    "out_of_claim": ["directory walking / ExportManager / VolumesAdapter / FileEntriesAdapter glue (exercised by C14, C05, C06)",
+    "out_of_claim": ["directory walking / ExportManager / VolumesAdapter / FileEntriesAdapter glue is not symbolic: it is exercised end to end by C01.image on solver-chosen concrete images",
                      "files longer than 3 sectors", "partitions beyond the stated window"],
 }
 
@@ -222,6 +302,15 @@ def obligations(tier, seed):
                            f"files of {nsec} sector(s), every size and marker pair inside; P <= 10; sectors <= 40"))
     obs.append(_ob("C01.window", "h_window", [], T, "every field the window expressions read", "full field ranges (u16/u24/u32)", twin=True))
     obs.append(_ob("C01.rate", "h_rate", [], T, "sampling_rate word, channel count", "0..65535"))
+    for dirk in range(3):
+        for pair in range(3):
+            if q and (dirk, pair) not in ((0, 1), (1, 2), (2, 0), (2, 1)):
+                continue
+            obs.append(_ob(f"C01.image/dir={('1-reserved', '2-reserved-run', '2-linked')[dirk]}/pair={('none', 'L-first', 'R-first')[pair]}", "h_image",
+                           [f"dirk == {dirk}", f"pair == {pair}"] + (["free == 0 and vtype == 1"] if q else []), T,
+                           "volume type, free sectors below, chain order, file length class (small / exact sector fill / 2 sectors exact), markers, rate, 1..2 partitions",
+                           "whole images from the independent writer through the real determine_image_type + export_samples_to_wav; concrete per path",
+                           twin=True))
     # shared kernels: the SAT decoder / chain walk / bytes over the chain (C07) and the L/R pairing of one directory (C05)
     from vf.props import c07, c05
     for o in c07.obligations(tier, seed):
